@@ -146,7 +146,12 @@ def single_estimators(d, ctx):
     ctx.nontrivial(skind not in ('none',) or which.startswith('cacg'))
 
 
-def _check_watson_concentration(D, kappa, lam_max, mc, clause):
+def _check_watson_concentration(D, kappa, lam_max, mc, clause, markers=1000):
+    # the trainer inverts the ratio by quadratic interpolation over
+    # ``spline_markers`` log-spaced knots; measured worst residual over D 2..8:
+    # 1.8e-6 (300 knots), 4.5e-8 (1000), 5.6e-9 (2000) ~ knots**-3.  Ten times
+    # that is granted.
+    tol = 5e-7 * (1000.0 / markers) ** 3
     lo_ratio = od.watson_mean_t(D, 1e-3)
     hi_ratio = od.watson_mean_t(D, float(mc))
     if lam_max >= hi_ratio + 1e-9:
@@ -157,7 +162,7 @@ def _check_watson_concentration(D, kappa, lam_max, mc, clause):
                 f'lambda_max={lam_max} kappa={kappa}')
     elif lo_ratio + 1e-7 < lam_max < hi_ratio - 1e-7:
         res = od.watson_mean_t(D, kappa) - lam_max
-        require(abs(res) <= 1e-6, f'{clause}-concentration-solves-ratio-equation',
+        require(abs(res) <= tol, f'{clause}-concentration-solves-ratio-equation',
                 f'D={D} kappa={kappa} E[t]-lambda_max={res:.3e}')
 
 
@@ -385,7 +390,8 @@ def compare_mstep(case, model, expected, it):
         mc = case.trainer_kwargs.get('max_concentration', 500)
         for idx in np.ndindex(*lam_max.shape):
             _check_watson_concentration(case.D, float(conc[idx]), float(lam_max[idx]),
-                                        mc, 'cwmm')
+                                        mc, 'cwmm',
+                                        case.trainer_kwargs.get('spline_markers', 1000))
         if np.any(gap < 1e-6):
             got.pop('watson_projector')
             exp.pop('watson_projector')
@@ -599,7 +605,11 @@ def _repetition(d, ctx, kind, **kw):
     if mm.ill_conditioned(m1, case):
         raise Borderline('fit sits on a numerical guard')
     rep, idx = _repeat_case(case, s)
-    m2 = ctx.lib(mm.fit, rep, clause='repeated-data-raises')
+    # an explicit refusal of the repeated data (collapsing Gaussian component:
+    # Cholesky of a covariance that is singular up to rounding) is a numerical
+    # guard, not a statement about the repetition law
+    m2 = ctx.lib(mm.fit, rep, allow_if=mm.explicit_refusal,
+                 clause='repeated-data-raises')
     p1, p2 = mm.params(m1, case), mm.params(m2, rep)
     # with a clipping constant the plain-mean weight update (no saliency) and
     # the L1-normalised one (saliency) differ by up to K*eps per iteration
